@@ -423,3 +423,61 @@ def ascending_index_deletion(fn):
                            and len(c.args) == 1 and isinstance(c.args[0], ast.Name) and c.args[0].id == cnt for c in ast.walk(e)):
                         out.append((d, cont, idx))
     return out
+
+
+def traversed_more_than_once(fn):
+    """{parameter: [nodes]} for parameters the function iterates over more than once (loops, comprehensions, any / all / sum / min / max /
+    sorted / list / tuple over them) without having bound a materialised copy to the name first: a one-shot iterable (zip, map, a
+    generator) is exhausted by the first traversal and the second sees nothing."""
+    params = {a.arg for a in fn.args.posonlyargs + fn.args.args + fn.args.kwonlyargs} - {'self', 'cls'}
+    rebound = {t.id for st in ast.walk(fn) if isinstance(st, ast.Assign) for t in st.targets if isinstance(t, ast.Name)}
+    out = {}
+    for n in ast.walk(fn):
+        its = []
+        if isinstance(n, ast.For):
+            its = [n.iter]
+        elif isinstance(n, (ast.ListComp, ast.SetComp, ast.DictComp, ast.GeneratorExp)):
+            its = [g.iter for g in n.generators]
+        elif isinstance(n, ast.Call) and dotted(n.func) in ('any', 'all', 'sum', 'min', 'max', 'sorted', 'list', 'tuple', 'set', 'enumerate', 'zip') and n.args:
+            its = [a for a in n.args if isinstance(a, ast.Name)]
+        for it in its:
+            while isinstance(it, ast.Call) and dotted(it.func) in ('enumerate', 'iter', 'reversed') and it.args:
+                it = it.args[0]
+            if isinstance(it, ast.Name) and it.id in params and it.id not in rebound:
+                out.setdefault(it.id, []).append(n)
+    return {k: v for k, v in out.items() if len(v) > 1}
+
+
+def misaligned_key_value_pairs(fn):
+    """[(zip call, mapping)]: zip(<keys of D put in another order>, D.values()) -- the values come in the mapping's own (insertion) order, the
+    keys sorted / reversed: from the first position where the two orders differ each key is paired with another key's value."""
+    defs = {}
+    for st in ast.walk(fn):
+        if isinstance(st, ast.Assign) and len(st.targets) == 1 and isinstance(st.targets[0], ast.Name):
+            defs.setdefault(st.targets[0].id, []).append(st.value)
+    out = []
+
+    def reordered_keys_of(e, depth=0):
+        """the mapping whose keys e lists in sorted / reversed order, else None"""
+        if isinstance(e, ast.Name) and e.id in defs and depth < 3:
+            for v in defs[e.id]:
+                r = reordered_keys_of(v, depth + 1)
+                if r:
+                    return r
+            return None
+        for c in ast.walk(e):
+            if isinstance(c, ast.Call) and dotted(c.func) in ('sorted', 'reversed') and c.args:
+                a = c.args[0]
+                if isinstance(a, ast.Call) and isinstance(a.func, ast.Attribute) and a.func.attr == 'keys':
+                    a = a.func.value
+                if isinstance(a, (ast.Name, ast.Attribute, ast.Subscript)):
+                    return norm(a)
+        return None
+    for c in ast.walk(fn):
+        if isinstance(c, ast.Call) and dotted(c.func) == 'zip' and len(c.args) == 2:
+            for k, v in ((c.args[0], c.args[1]), (c.args[1], c.args[0])):
+                if isinstance(v, ast.Call) and isinstance(v.func, ast.Attribute) and v.func.attr == 'values' and not v.args:
+                    d = reordered_keys_of(k)
+                    if d and d == norm(v.func.value):
+                        out.append((c, d))
+    return out
